@@ -387,6 +387,17 @@ func makeBoxes(tier string) []*Box {
 		Cfg: cfgOnePerMsg(3, false), Bud: Budget{MaxTerm: 4, Proposals: 1, Drops: pick(0, 9)},
 		Depth: 400, MaxDev: pick(1, 2), Kinds: kinds(evCampaign, evPropose, evIsolate), Devs: kinds(evIsolate, evDrop), LeaderPropose: true,
 		Share: pick(45, 180)})
+	// B14: a byte budget that bites (MaxSizePerMsg = 40: a small entry is ~10 bytes, a long one
+	// ~75) with entries of unequal size, and reads of the log that straddle the persisted and
+	// the not yet persisted part (persist lag on the leader or on a follower): a size-limited
+	// read must return a contiguous run (LogMatching, StateMachineSafety see a hole at once)
+	small := cfgPlain(3, false)
+	small.Name, small.MaxSizePerMsg, small.Unequal = "raftexample with MaxSizePerMsg=40 and proposals of unequal size", 40, true
+	add(&Box{ID: "B14", Mode: "B", What: "size-limited log reads across the persisted / unpersisted boundary: MaxSizePerMsg=40, every second proposal 64 bytes longer, persist lag on any node, one lost message",
+		Cfg: small, Bud: Budget{MaxTerm: 2, Proposals: 4, Drops: 1, Plags: 1, Persists: 3},
+		Depth: 400, MaxDev: 3, Kinds: kinds(evCampaign, evPropose, evPLag, evPersist, evUnplag), Devs: kinds(evDrop, evPersist, evPLag, evPropose),
+		LeaderPropose: true, CampaignAt: 1, CollectAll: true,
+		Restrictions: []string{"one election, by node 1", "proposals at the leader only", "deviations: loss of any in-flight message, persist(n) / plag(n) / propose while messages are in flight"}, Share: 60})
 	if tj := os.Getenv("RAFTMC_TRIAL"); tj != "" {
 		// development aid: a box given as JSON, e.g.
 		// {"mode":"B","cfg":"plain","members":3,"joiner":false,"budgets":{...},"max_deviations":1,"kinds":"CPHKRS"}
